@@ -277,6 +277,79 @@ pub fn run(rep: &mut Rep) {
     poster::verif::enable(false);
     let _ = rc::varint_len(1);
     second_connection(rep, &reqs, idx);
+    largest_packets(rep);
+}
+
+/// The largest packets MQTT can carry (remaining length 268 435 455, 268 435 456 to 268 435 460 bytes in all): no limit
+/// announced, or one they fit, means written in full; a limit one byte short means refused without a byte.
+/// Only in the plain builds (a sanitizer or interpreter would spend minutes copying the payload).
+fn largest_packets(rep: &mut Rep) {
+    if rep.profile != "checked" && rep.profile != "fast" {
+        return;
+    }
+    // (remaining length, M)
+    let mut cases: Vec<(usize, Option<u32>)> = vec![(268_435_455, None)];
+    if !rep.quick() {
+        cases.extend([(268_435_455, Some(u32::MAX)), (268_435_455, Some(268_435_460)), (268_435_455, Some(268_435_459)), (268_435_451, None), (268_435_452, Some(268_435_456))]);
+    }
+    rep.note(&format!("largest packets: {} QoS 0 publishes whose remaining length is 268 435 455 (or a few bytes less), so that the packet is 268 435 456 .. 268 435 460 bytes long, with no Maximum Packet Size announced, 2^32-1, exactly L, and L-1", cases.len()));
+    for (k, (rl, m)) in cases.iter().enumerate() {
+        let id = format!("largest:{k}");
+        if !rep.take(9_500_000 + k as u64, &id) {
+            continue;
+        }
+        let mut sim = session(rep.seed, *m, None);
+        sim.log_enabled = false;
+        let l = 1 + 4 + *rl;
+        // topic "t" (3 bytes), empty properties (1 byte)
+        let spec = PubSpec { topic: Some("t".into()), payload: Some(vec![0x5a; *rl - 4]), ..Default::default() };
+        let w0 = sim.written_len();
+        let op = sim.start_op(0, OpSpec::Publish(spec));
+        sim.settle();
+        let wrote = sim.written_len() - w0;
+        let out = sim.ops[op].out.clone();
+        rep.add("evaluations", 1);
+        rep.add("largest_packet_cases", 1);
+        rep.distinct(&("largest", k));
+        for p in sim.panics.clone() {
+            viol(rep, format!("C12/panic/{p}"), &id, format!("panic: {p}"), &sim);
+        }
+        let must_refuse = m.map(|m| l > m as usize).unwrap_or(false);
+        if must_refuse {
+            if wrote != 0 {
+                viol(rep, "C12/oversized-packet-written/publish0/largest".into(), &id, format!("M = {:?}, L = {l}: {wrote} bytes written", m), &sim);
+            }
+            if !matches!(out.as_ref().and_then(|o| o.err()), Some(ErrSum::MaximumPacketSizeExceeded)) {
+                viol(rep, "C12/oversized-not-refused/publish0/largest".into(), &id, format!("M = {:?}, L = {l}: result {:?}", m, out.as_ref().map(|o| o.brief())), &sim);
+            }
+        } else {
+            let head_ok = {
+                let wr = sim.writer.0.borrow();
+                let b = &wr.written[w0..];
+                let mut want = vec![0x30u8];
+                let mut v = *rl;
+                loop {
+                    let mut byte = (v % 128) as u8;
+                    v /= 128;
+                    if v > 0 {
+                        byte |= 0x80;
+                    }
+                    want.push(byte);
+                    if v == 0 {
+                        break;
+                    }
+                }
+                want.extend([0, 1, b't', 0]);
+                b.len() == l && b[..want.len()] == want[..] && b[want.len()..].iter().all(|x| *x == 0x5a)
+            };
+            if !head_ok || !out.as_ref().map(|o| o.is_ok()).unwrap_or(false) {
+                viol(rep, "C12/fitting-packet-not-written-in-full/publish0/largest".into(), &id, format!("M = {:?}, L = {l} (remaining length {rl}): {wrote} bytes written, result {:?}", m, out.as_ref().map(|o| o.brief())), &sim);
+            } else {
+                rep.add("largest_packets_written_in_full", 1);
+                rep.sample(|| format!("{id}: L = {l}, M = {:?} -> written in full", m));
+            }
+        }
+    }
 }
 
 /// The limit that counts is the one announced in the CONNACK of the *current* connection: the same Context is connected
